@@ -34,7 +34,7 @@ theorem forKey_ne_untilKey : forKey ≠ untilKey := by decide
 theorem stamp_for (m : Msg) (d : Delay) : mget (stamp m d).md forKey = .dur d.dur := by
   simp [stamp, mget_mset_same]
 
-theorem stamp_until (m : Msg) (d : Delay) : mget (stamp m d).md untilKey = .time (secOf d.time) := by
+theorem stamp_until (m : Msg) (d : Delay) : mget (stamp m d).md untilKey = renderTime d.time d.zone := by
   simp only [stamp]
   rw [mget_mset_other _ _ _ _ (Ne.symm forKey_ne_untilKey), mget_mset_same]
 
